@@ -156,6 +156,15 @@ CHECKS = {
         "'instance' duplicates are exercised on TractList only; dicts are not generated as containers.",
         "DESIGN.md section 4 C18",
     ),
+    "C19": (
+        "exhaustive enumeration over Tract.ATTRIBUTES x writers + seeded Hypothesis generation of selections / header options / file states; read-back oracle",
+        "Every attribute name is exported alone through tracts_to_dict/list, the iterator forms, tracts_to_csv and TractWriter on descriptions that "
+        "populate lots, acreages, flags with context, multi-line and quoted text; random selections (optionally with an unknown name), header "
+        "options, write/append on new/existing files, several write() calls, plus_cols and uid are generated. Records must equal the attributes; "
+        "the csv is read back with csv.reader and each cell must carry the scalar, or every leaf of the list/dict in order.",
+        "List/dict cells: every leaf in order and no other alphanumeric content (exactly ', '.join for flat string lists); the UID cell format is not checked.",
+        "DESIGN.md section 4 C19",
+    ),
 }
 
 NOT_BUILT = {}
